@@ -898,35 +898,46 @@ def run(ctx: Any, prog: Program) -> None:
     # ---- X7 ------------------------------------------------------------------------------------------------
     loop = [n for n in walk_no_nested(eb) if isinstance(n, ast.For) and isinstance(n.iter, ast.Call) and isinstance(n.iter.func, ast.Attribute) and n.iter.func.attr == 'values' and isinstance(n.iter.func.value, ast.Name)]
     loop = [l for l in loop if any(isinstance(c, ast.Call) and dotted(c.func) == 'pack' for c in ast.walk(l))]
-    if len(loop) != 1:
+    if not loop:
+        # the attributes may be filtered into a list first, which is then counted with len() and iterated: one criterion by construction
+        pre = [l for l in walk_no_nested(eb) if isinstance(l, ast.For) and isinstance(l.iter, ast.Name) and any(isinstance(c, ast.Call) and dotted(c.func) == 'pack' for c in ast.walk(l))
+               and any(isinstance(a, ast.Assign) and dotted(a.targets[0]) == l.iter.id and isinstance(a.value, ast.ListComp) and isinstance(a.value.generators[0].iter, ast.Call)
+                       and isinstance(a.value.generators[0].iter.func, ast.Attribute) and a.value.generators[0].iter.func.attr == 'values' for a in walk_no_nested(eb))]
+        if len(pre) == 1:
+            lst_name = pre[0].iter.id
+            counted = any(isinstance(c, ast.Call) and dotted(c.func) == 'pack' and any(isinstance(a, ast.Call) and dotted(a.func) == 'len' and a.args and dotted(a.args[0]) == lst_name for a in c.args[1:]) for c in walk_no_nested(eb))
+            ctx.check('C14.X7', counted, dmx, pre[0], f'export_binary iterates the pre-filtered list `{lst_name}`; the attribute count written must be len({lst_name})', func='Element.export_binary', text='attribute count criterion = skip criterion')
+            loop = None
+    if loop is not None and len(loop) != 1:
         raise AnalysisError('export_binary: attribute writing loop not found')
-    # the attribute count: the local that is packed in the statements right in front of that loop
-    holder = eb_parent_body = None
-    par_l = dmx.parents.get(loop[0])
-    for fld_ in ('body', 'orelse'):
-        seq_ = getattr(par_l, fld_, None)
-        if isinstance(seq_, list) and loop[0] in seq_:
-            eb_parent_body = seq_[:seq_.index(loop[0])]
-    cnt_names = [a.id for st_ in (eb_parent_body or []) for c in ast.walk(st_) if isinstance(c, ast.Call) and dotted(c.func) == 'pack' for a in c.args[1:] if isinstance(a, ast.Name)]
-    cnt = [n for n in walk_no_nested(eb) if isinstance(n, ast.Assign) and isinstance(n.targets[0], ast.Name) and cnt_names and n.targets[0].id == cnt_names[-1]]
-    if len(cnt) != 1:
-        raise AnalysisError('export_binary: attr_count computation not found')
-    skip = [s for s in loop[0].body if isinstance(s, ast.If) and any(isinstance(x, ast.Continue) for x in s.body)]
-    if len(skip) != 1:
-        raise AnalysisError('export_binary: the name-attribute skip was not found')
-    skip_src = U(skip[0].test)
-    cnt_src = U(cnt[0].value)
-    adj = [n for n in walk_no_nested(eb) if isinstance(n, ast.If) and any(isinstance(s, ast.AugAssign) and cnt and dotted(s.target) == cnt[0].targets[0].id for s in n.body)]
-    folded_skip = 'casefold()' in skip_src
-    if adj:
-        adj_src = U(adj[0].test)
-        folded_cnt = "in elem._members" in adj_src or 'casefold()' in adj_src
-        same = folded_cnt == folded_skip
-        detail = f'the count drops one when `{adj_src}` (case-insensitive key) but the loop skips when `{skip_src}` (exact spelling): an attribute spelled e.g. "Name" is counted out yet written'
-    else:
-        same = skip_src.replace(' ', '') in cnt_src.replace(' ', '').replace('!=', '==') or ('!=' in cnt_src and skip_src.replace('==', '!=') in cnt_src)
-        detail = f'count `{cnt_src}` vs skip `{skip_src}`'
-    ctx.check('C14.X7', same, dmx, cnt[0], detail, func='Element.export_binary', text='attribute count criterion = skip criterion')
+    if loop is not None:
+        # the attribute count: the local that is packed in the statements right in front of that loop
+        holder = eb_parent_body = None
+        par_l = dmx.parents.get(loop[0])
+        for fld_ in ('body', 'orelse'):
+            seq_ = getattr(par_l, fld_, None)
+            if isinstance(seq_, list) and loop[0] in seq_:
+                eb_parent_body = seq_[:seq_.index(loop[0])]
+        cnt_names = [a.id for st_ in (eb_parent_body or []) for c in ast.walk(st_) if isinstance(c, ast.Call) and dotted(c.func) == 'pack' for a in c.args[1:] if isinstance(a, ast.Name)]
+        cnt = [n for n in walk_no_nested(eb) if isinstance(n, ast.Assign) and isinstance(n.targets[0], ast.Name) and cnt_names and n.targets[0].id == cnt_names[-1]]
+        if len(cnt) != 1:
+            raise AnalysisError('export_binary: attr_count computation not found')
+        skip = [s for s in loop[0].body if isinstance(s, ast.If) and any(isinstance(x, ast.Continue) for x in s.body)]
+        if len(skip) != 1:
+            raise AnalysisError('export_binary: the name-attribute skip was not found')
+        skip_src = U(skip[0].test)
+        cnt_src = U(cnt[0].value)
+        adj = [n for n in walk_no_nested(eb) if isinstance(n, ast.If) and any(isinstance(s, ast.AugAssign) and cnt and dotted(s.target) == cnt[0].targets[0].id for s in n.body)]
+        folded_skip = 'casefold()' in skip_src
+        if adj:
+            adj_src = U(adj[0].test)
+            folded_cnt = "in elem._members" in adj_src or 'casefold()' in adj_src
+            same = folded_cnt == folded_skip
+            detail = f'the count drops one when `{adj_src}` (case-insensitive key) but the loop skips when `{skip_src}` (exact spelling): an attribute spelled e.g. "Name" is counted out yet written'
+        else:
+            same = skip_src.replace(' ', '') in cnt_src.replace(' ', '').replace('!=', '==') or ('!=' in cnt_src and skip_src.replace('==', '!=') in cnt_src)
+            detail = f'count `{cnt_src}` vs skip `{skip_src}`'
+        ctx.check('C14.X7', same, dmx, cnt[0], detail, func='Element.export_binary', text='attribute count criterion = skip criterion')
     # ---- X8 ------------------------------------------------------------------------------------------------
     fk, tk = em['from_kv1'], em['to_kv1']
     fsrc, tsrc = U(fk), U(tk)
